@@ -592,6 +592,28 @@ m('meta-maxsizeof-min', 'utilities/anydata.h', "	static constexpr std::size_t va
 m('eq-meta-shifttuple-dead-code', 'internal/typeutil_i.h', "	using Type = std::tuple<Args...>;\n};\n\ntemplate <>\nstruct ShiftTuple <std::tuple<> >", "	using Type = std::tuple<A, Args...>;\n};\n\ntemplate <>\nstruct ShiftTuple <std::tuple<> >", 'C14,C05', 'silent')
 
 # ---------------- 40 behaviour-preserving refactorings written by independent sub-agents (selftest/patches/eqagents) ----------
+# SingleThreading::Atomic operation mutants (value numbering, symval)
+m('st-atomic-preinc-returns-old', 'eventpolicies.h', "			return ++value;", "			return value++;", 'C20,C02', 'fire', 'C20.P')
+m('st-atomic-predec-no-store', 'eventpolicies.h', "			return --value;", "			return value - 1;", 'C20,C02', 'fire', 'C20.P')
+m('st-atomic-exchange-returns-new', 'eventpolicies.h', """			const T previous = value;
+			value = desired;
+			return previous;""", """			value = desired;
+			const T previous = value;
+			return previous;""", 'C20', 'fire', 'C20.P')
+m('st-atomic-store-dropped', 'eventpolicies.h', """std::memory_order_seq_cst) noexcept
+		{
+			value = desired;
+		}""", """std::memory_order_seq_cst) noexcept
+		{
+			(void)desired;
+		}""", 'C20', 'fire', 'C20.P')
+m('eq-st-atomic-exchange-via-swap-temp', 'eventpolicies.h', """			const T previous = value;
+			value = desired;
+			return previous;""", """			T previous = desired;
+			desired = value;
+			value = previous;
+			return desired;""", 'C20', 'silent')
+
 _EQ_PROPS = {'A1': 'C01,C02,C03,C19', 'A2': 'C04,C03,C01', 'A3': 'C05,C06,C07,C08,C11,C13', 'A4': 'C05,C06,C07,C08,C09,C10,C11',
              'A5': 'C14,C03,C12,C04,C02', 'A6': 'C14,C05,C06,C07,C09', 'A7': 'C15,C16,C09', 'A8': 'C17,C18,C08', 'A9': 'C12,C13,C08',
              'A10': 'C03,C12,C20,C04'}
